@@ -136,37 +136,51 @@ func runC03(r *Run) {
 	}
 }
 
-func c03RunCell(r *Run, ca *CA, origin *Origin, idx int, c c03Cell) {
-	id := fmt.Sprintf("%d", idx)
-	ocspPath, crlPath := "/ocsp/"+id, "/crl/"+id
+type c03Subject struct {
+	leaf              *Leaf
+	ocspPath, crlPath string
+	chains            [][]*x509.Certificate
+}
+
+// c03Subject builds one client certificate with its own responder / distribution point paths for the cell.
+func c03MakeSubject(ca *CA, origin *Origin, id string, c c03Cell) c03Subject {
+	s := c03Subject{ocspPath: "/ocsp/" + id, crlPath: "/crl/" + id}
 	lo := LeafOpts{}
 	if c.Ocsp != "noaia" {
-		lo.OCSP = []string{origin.URL(ocspPath)}
+		lo.OCSP = []string{origin.URL(s.ocspPath)}
 	}
 	if c.Crl != "none" {
-		lo.CDP = []string{origin.URL(crlPath)}
+		lo.CDP = []string{origin.URL(s.crlPath)}
 	}
-	leaf := ca.IssueLeaf(lo)
+	s.leaf = ca.IssueLeaf(lo)
 	switch c.Ocsp {
 	case "good":
-		origin.SetBytes(ocspPath, ca.OCSPResponse(OCSPOpts{Status: ocsp.Good, Serial: leaf.Cert.SerialNumber}))
+		origin.SetBytes(s.ocspPath, ca.OCSPResponse(OCSPOpts{Status: ocsp.Good, Serial: s.leaf.Cert.SerialNumber}))
 	case "revoked":
-		origin.SetBytes(ocspPath, ca.OCSPResponse(OCSPOpts{Status: ocsp.Revoked, Serial: leaf.Cert.SerialNumber}))
+		origin.SetBytes(s.ocspPath, ca.OCSPResponse(OCSPOpts{Status: ocsp.Revoked, Serial: s.leaf.Cert.SerialNumber}))
 	case "unavailable":
-		origin.Set(ocspPath, Behaviour{Kind: "status", Status: 500, Body: []byte("<html>internal error</html>")})
+		origin.Set(s.ocspPath, Behaviour{Kind: "status", Status: 500, Body: []byte("<html>internal error</html>")})
 	}
 	switch c.Crl {
 	case "listed":
-		origin.SetBytes(crlPath, ca.MakeCRL(CRLOpts{Serials: []*big.Int{big.NewInt(5), leaf.Cert.SerialNumber, big.NewInt(7)}}))
+		origin.SetBytes(s.crlPath, ca.MakeCRL(CRLOpts{Serials: []*big.Int{big.NewInt(5), s.leaf.Cert.SerialNumber, big.NewInt(7)}}))
 	case "notlisted":
-		origin.SetBytes(crlPath, ca.MakeCRL(CRLOpts{Serials: []*big.Int{big.NewInt(5), big.NewInt(7)}}))
+		origin.SetBytes(s.crlPath, ca.MakeCRL(CRLOpts{Serials: []*big.Int{big.NewInt(5), big.NewInt(7)}}))
 	case "unavailable":
-		origin.Set(crlPath, Behaviour{Kind: "status", Status: 404, Body: []byte("not found")})
+		origin.Set(s.crlPath, Behaviour{Kind: "status", Status: 404, Body: []byte("not found")})
 	}
-	var chains [][]*x509.Certificate
 	for k := 0; k < c.ChainShape; k++ {
-		chains = append(chains, []*x509.Certificate{leaf.Cert, ca.Cert})
+		s.chains = append(s.chains, []*x509.Certificate{s.leaf.Cert, ca.Cert})
 	}
+	return s
+}
+
+func c03RunCell(r *Run, ca *CA, origin *Origin, idx int, c c03Cell) {
+	// two identically constructed subjects: B is used to classify what each mechanism returns (direct calls on the
+	// real checkers), A for the handshake whose verdict and consulted mechanisms are observed. Separate paths keep
+	// B's background refresh goroutine out of A's hit counters.
+	sa := c03MakeSubject(ca, origin, fmt.Sprintf("%da", idx), c)
+	sb := c03MakeSubject(ca, origin, fmt.Sprintf("%db", idx), c)
 	mk := func() (*Validator, error) {
 		return Provision(VCfg{Mode: c.Mode, WorkDir: scratchDir("c03"), Storage: c.Storage, CDPStrict: c.CdpStrict, OCSPStrict: c.AiaStrict})
 	}
@@ -179,7 +193,6 @@ func c03RunCell(r *Run, ca *CA, origin *Origin, idx int, c c03Cell) {
 	if c.Crl == "unavailable" && c.CdpStrict {
 		cExp = "error"
 	}
-	// validator B: classify each mechanism by calling the real checkers directly
 	vb, err := mk()
 	if err != nil {
 		r.Violate("C03 provision-failed", fmt.Sprintf("cell %s: %v", c.key(), err), c)
@@ -187,33 +200,33 @@ func c03RunCell(r *Run, ca *CA, origin *Origin, idx int, c c03Cell) {
 	}
 	oObs, cObs := oExp, cExp
 	// (the checkers are only provisioned when the parsed mode enables them)
-	if ch := vb.V.VerifOCSPChecker(); ch != nil && len(chains) > 0 && revocation.VerifIsOCSPCheckingEnabled(vb.V) {
-		st, e := ch.IsRevoked(leaf.Cert, chains)
+	if ch := vb.V.VerifOCSPChecker(); ch != nil && len(sb.chains) > 0 && revocation.VerifIsOCSPCheckingEnabled(vb.V) {
+		st, e := ch.IsRevoked(sb.leaf.Cert, sb.chains)
 		oObs = classify(st != nil && st.Revoked, e)
 	}
-	if ch := vb.V.VerifCRLChecker(); ch != nil && len(chains) > 0 && revocation.VerifIsCRLCheckingEnabled(vb.V) {
-		st, e := ch.IsRevoked(leaf.Cert, chains)
+	if ch := vb.V.VerifCRLChecker(); ch != nil && len(sb.chains) > 0 && revocation.VerifIsCRLCheckingEnabled(vb.V) {
+		st, e := ch.IsRevoked(sb.leaf.Cert, sb.chains)
 		cObs = classify(st != nil && st.Revoked, e)
 	}
 	vb.Close()
 	if oObs != oExp || cObs != cExp {
 		r.Violate("C03 mechanism-outcome-unexpected", fmt.Sprintf("cell %s: ocsp %s (constructed %s) crl %s (constructed %s)", c.key(), oObs, oExp, cObs, cExp), c)
 	}
-	ocspBefore, crlBefore := origin.Hits(ocspPath), origin.Hits(crlPath)
 	va, err := mk()
 	if err != nil {
 		r.Violate("C03 provision-failed", fmt.Sprintf("cell %s: %v", c.key(), err), c)
 		return
 	}
-	verdict, _ := va.Verify(chains)
-	va.Close()
+	verdict, _ := va.Verify(sa.chains)
 	var consulted []string
-	if origin.Hits(ocspPath) > ocspBefore {
+	if origin.Hits(sa.ocspPath) > 0 {
 		consulted = append(consulted, "ocsp")
 	}
-	if origin.Hits(crlPath) > crlBefore {
+	if origin.Hits(sa.crlPath) > 0 {
 		consulted = append(consulted, "crl")
 	}
+	va.Close()
+	chains := sa.chains
 	obsO, obsC := c.Ocsp != "noaia", c.Crl != "none"
 	mode := c.Mode
 	if mode == "" {
